@@ -3,7 +3,7 @@
    Arrays are (length, index function) over Q; np.pad is an arbitrary function with the contract
    [np_contract]; exp is an arbitrary positive function. *)
 From Coq Require Import ZArith QArith List Bool Lia.
-From PB Require Import lib.PySlice C18.Model C18.SumQ C18.PadProofs C18.ConvProofs C18.Model2D C18.Proofs2D C18.DType C18.DTypeProofs.
+From PB Require Import lib.PySlice C18.Model C18.SumQ C18.PadProofs C18.ConvProofs C18.Model2D C18.Proofs2D C18.DType C18.DTypeProofs C18.OwProofs.
 Import ListNotations.
 Open Scope Z_scope.
 
@@ -304,3 +304,34 @@ Theorem C18_typed_inherit_refuted :
                 (vget o1 0 == 0)%Q /\ (vget o2 0 == - 2 # 3)%Q.
 Proof. exact typed_inherit_refuted. Qed.
 Print Assumptions C18_typed_inherit_refuted.
+
+(* ---- optimize_window over the whole range of its options ----
+   for EVERY min_half_window (0 and negative too), every max_half_window, increment >= 1, max_hits and
+   every outcome sequence of the tolerance test: the result is >= 1, and is 1 or lies in
+   [min_half_window, max_half_window) *)
+Theorem C18_optimize_window_bounds_any_min : forall (close : Z -> bool) (inc max_hits max_hw min_hw r : Z),
+  1 <= inc ->
+  optimize_window close inc max_hits max_hw min_hw = Ok r ->
+  1 <= r /\ (r = 1 \/ min_hw <= r < max_hw).
+Proof. exact optimize_window_bounds_any_min. Qed.
+Print Assumptions C18_optimize_window_bounds_any_min.
+
+(* flat data (every opening agrees with the previous one) with at least max_hits scanned windows:
+   the call returns max(min_half_window, 1), i.e. 1 for min_half_window = 0 *)
+Theorem C18_optimize_window_flat : forall (close : Z -> bool) (inc max_hits max_hw min_hw : Z),
+  1 <= inc -> 1 <= max_hits -> (forall h, close h = true) ->
+  max_hits <= Z.of_nat (length (py_range (min_hw + inc) max_hw inc)) ->
+  optimize_window close inc max_hits max_hw min_hw = Ok (Z.max min_hw 1).
+Proof. exact optimize_window_flat. Qed.
+Print Assumptions C18_optimize_window_flat.
+
+Example C18_optimize_window_flat_nonvacuous :
+  (3 <= Z.of_nat (length (py_range (0 + 1) 12 1))) /\ optimize_window (fun _ => true) 1 3 12 0 = Ok 1.
+Proof. split; vm_compute; [discriminate|reflexivity]. Qed.
+
+(* clamping the result with the caller's minimum instead of the constant 1 returns 0 there *)
+Theorem C18_optimize_window_minclamp_refuted :
+  optimize_window_minclamp (fun _ => true) 1 3 12 0 = Ok 0 /\
+  optimize_window (fun _ => true) 1 3 12 0 = Ok 1.
+Proof. exact optimize_window_minclamp_refuted. Qed.
+Print Assumptions C18_optimize_window_minclamp_refuted.
